@@ -38,16 +38,19 @@
 (*   Crash           a new instance over what the underlying datastore holds; the buffer, *)
 (*                   the sessions and the running calls are gone           *)
 (*                                                                         *)
+(*   Plant           a record without coordinates appears under the block's key        *)
+(* A restarted instance may be configured with another sample amount (Ks): a stored record *)
+(* whose size is neither that amount nor the square area is refused ("invalid sampling result"). *)
 (* Not modelled: Prune (property C14), datastore I/O errors (the harness uses a map *)
-(* datastore which never fails), a change of K between restarts (the "invalid sampling *)
-(* result" branch).                                                        *)
+(* datastore which never fails).                                           *)
 (***************************************************************************)
 EXTENDS Naturals, FiniteSets, Sequences, TLC
 
 CONSTANTS
     Coords,          \* coordinates of the extended square (naturals row*width+col in traces and
                      \* simulation; model values under symmetry in exhaustive runs)
-    K,               \* configured SampleAmount (>= 1; may exceed |Coords|)
+    K,               \* SampleAmount the first instance is configured with (>= 1; may exceed |Coords|)
+    Ks,              \* SampleAmounts a restarted instance may be configured with instead ({} = never changes)
     Callers,         \* concurrent callers
     Heights,         \* heights; one data root per height
     NoCaller, NoHeight,  \* "nobody" / "none"
@@ -79,12 +82,17 @@ VARIABLES
     okGiven,   \* ghost: heights for which the verdict "available" has been returned
     lost,      \* ghost: a crash discarded deliveries that were not yet in the underlying datastore
     calls, envs,
+    k,         \* SampleAmount of the running instance
     hist       \* ghost: stimuli so far (only when RecordHist)
 
 vars == <<disk, buf, session, pc, hgt, ctxDone, smp, woken, got,
-          drawn, seen, okGiven, lost, calls, envs, hist>>
+          drawn, seen, okGiven, lost, calls, envs, k, hist>>
 
-Need   == IF K < Cardinality(Coords) THEN K ELSE Cardinality(Coords)
+varsNoK == <<disk, buf, session, pc, hgt, ctxDone, smp, woken, got,
+             drawn, seen, okGiven, lost, calls, envs, hist>>
+
+Area   == Cardinality(Coords)
+Need   == IF k < Area THEN k ELSE Area            \* min(configured sample count, square area)
 Draws  == {D \in SUBSET Coords : Cardinality(D) = Need}
 NoRes  == [set |-> FALSE, avail |-> {}, rem |-> {}]
 MkRes(a, r) == [set |-> TRUE, avail |-> a, rem |-> r]
@@ -94,8 +102,8 @@ NoGot  == [served |-> {}, len0 |-> FALSE, cancelled |-> FALSE]
 Normal(h) == h \notin EmptyHeights /\ h \notin OutsideHeights
 
 \* what an (inner) getter may answer to a request for the coordinates R
-Outcomes(R) == {[served |-> S, len0 |-> FALSE, kind |-> k] : S \in SUBSET R, k \in Kinds}
-          \cup {[served |-> {}, len0 |-> TRUE, kind |-> k] : k \in Kinds}
+Outcomes(R) == {[served |-> S, len0 |-> FALSE, kind |-> kd] : S \in SUBSET R, kd \in Kinds}
+          \cup {[served |-> {}, len0 |-> TRUE, kind |-> kd] : kd \in Kinds}
 IsOutcome(o, R) ==          \* o \in Outcomes(R), without enumerating the set
     /\ o.served \subseteq R /\ o.kind \in Kinds /\ o.len0 \in BOOLEAN
     /\ o.len0 => o.served = {}
@@ -106,7 +114,7 @@ Through(o, viaCascade) ==
 Rank(S, x) == Cardinality({y \in S : y < x})            \* position of x in S sorted ascending
 Log(e) == hist' = IF RecordHist THEN Append(hist, e) ELSE hist
 
-InSession(c) == pc[c] \in {"locked", "loaded", "inGetter", "post"}
+InSession(c) == pc[c] \in {"locked", "loaded", "invalid", "inGetter", "post"}
 Active(c)    == pc[c] # "idle"
 
 Init ==
@@ -118,7 +126,7 @@ Init ==
     /\ drawn = [h \in Heights |-> [set |-> FALSE, d |-> {}]]
     /\ seen = [h \in Heights |-> {}] /\ okGiven = {}
     /\ lost = [h \in Heights |-> FALSE]
-    /\ calls = 0 /\ envs = 0 /\ hist = <<>>
+    /\ calls = 0 /\ envs = 0 /\ k = K /\ hist = <<>>
 
 -----------------------------------------------------------------------------
 \* SharesAvailable is entered.
@@ -127,7 +135,7 @@ Call(c, h) ==
     /\ pc' = [pc EXCEPT ![c] = "start"] /\ hgt' = [hgt EXCEPT ![c] = h]
     /\ calls' = calls + 1
     /\ Log([a |-> "call", c |-> c, h |-> h])
-    /\ UNCHANGED <<disk, buf, session, ctxDone, smp, woken, got, drawn, seen, okGiven, lost, envs>>
+    /\ UNCHANGED <<disk, buf, session, ctxDone, smp, woken, got, drawn, seen, okGiven, lost, envs, k>>
 
 \* common tail: the verdict res is handed to the caller; its locals die
 Finish(c, res) ==
@@ -152,34 +160,34 @@ PersistVerdict(c) ==
 EmptyOrOutside(c) ==
     /\ pc[c] = "start" /\ ~Normal(hgt[c])
     /\ Finish(c, EmptyOrOutsideVerdict(c))
-    /\ UNCHANGED <<disk, buf, session, woken, drawn, seen, lost, calls, envs, hist>>
+    /\ UNCHANGED <<disk, buf, session, woken, drawn, seen, lost, calls, envs, hist, k>>
 
 \* sessions.go:28  LoadOrStore stored our channel (no context check on this path)
 StartSession(c) ==
     /\ pc[c] = "start" /\ Normal(hgt[c]) /\ session[hgt[c]] = NoCaller
     /\ session' = [session EXCEPT ![hgt[c]] = c]
     /\ pc' = [pc EXCEPT ![c] = "locked"]
-    /\ UNCHANGED <<disk, buf, hgt, ctxDone, smp, woken, got, drawn, seen, okGiven, lost, calls, envs, hist>>
+    /\ UNCHANGED <<disk, buf, hgt, ctxDone, smp, woken, got, drawn, seen, okGiven, lost, calls, envs, hist, k>>
 
 \* sessions.go:29-35  another session is active: wait on *its* channel
 FindHeld(c) ==
     /\ pc[c] = "start" /\ Normal(hgt[c]) /\ session[hgt[c]] # NoCaller
     /\ pc' = [pc EXCEPT ![c] = "waiting"]
     /\ UNCHANGED <<disk, buf, session, hgt, ctxDone, smp, woken, got, drawn, seen, okGiven, lost,
-                   calls, envs, hist>>
+                   calls, envs, hist, k>>
 
 \* sessions.go:32,37  the awaited session was released -> StartSession again
 Wake(c) ==
     /\ pc[c] = "waiting" /\ woken[c]
     /\ pc' = [pc EXCEPT ![c] = "start"] /\ woken' = [woken EXCEPT ![c] = FALSE]
     /\ UNCHANGED <<disk, buf, session, hgt, ctxDone, smp, got, drawn, seen, okGiven, lost,
-                   calls, envs, hist>>
+                   calls, envs, hist, k>>
 
 \* sessions.go:33-34  ctx.Done while waiting -> ctx.Err()  (select: also possible when woken)
 WaitAbort(c) ==
     /\ pc[c] = "waiting" /\ ctxDone[c]
     /\ Finish(c, "cancelled") /\ woken' = [woken EXCEPT ![c] = FALSE]
-    /\ UNCHANGED <<disk, buf, session, drawn, seen, lost, calls, envs, hist>>
+    /\ UNCHANGED <<disk, buf, session, drawn, seen, lost, calls, envs, hist, k>>
 
 \* availability.go:104-129  load the previous result, or draw.  D is the fresh draw (used only
 \* when nothing is stored); the trace specification instantiates D with the observed request.
@@ -189,10 +197,20 @@ LoadOrDrawWith(c, D) ==
        IF Read(h).set
        THEN /\ smp' = [smp EXCEPT ![c] = Read(h)]
             /\ UNCHANGED drawn
+            \* availability.go:116-122  "Verify total samples count": a stored record whose size is
+            \* neither the configured sample amount nor the square area is refused
+            /\ LET total == Cardinality(Read(h).avail) + Cardinality(Read(h).rem) IN
+               pc' = [pc EXCEPT ![c] = IF total # k /\ total # Area THEN "invalid" ELSE "loaded"]
        ELSE /\ smp' = [smp EXCEPT ![c] = MkRes({}, D)]
             /\ drawn' = IF drawn[h].set THEN drawn ELSE [drawn EXCEPT ![h] = [set |-> TRUE, d |-> D]]
-    /\ pc' = [pc EXCEPT ![c] = "loaded"]
-    /\ UNCHANGED <<disk, buf, session, hgt, ctxDone, woken, got, seen, okGiven, lost, calls, envs, hist>>
+            /\ pc' = [pc EXCEPT ![c] = "loaded"]
+    /\ UNCHANGED <<disk, buf, session, hgt, ctxDone, woken, got, seen, okGiven, lost, calls, envs, k, hist>>
+
+\* availability.go:120  return fmt.Errorf("invalid sampling result: ...")
+ReturnInvalid(c) ==
+    /\ pc[c] = "invalid"
+    /\ Finish(c, "invalid") /\ Release(c)
+    /\ UNCHANGED <<disk, buf, drawn, seen, lost, calls, envs, k, hist>>
 
 LoadOrDraw(c) ==
     /\ pc[c] = "locked"
@@ -202,14 +220,14 @@ LoadOrDraw(c) ==
 AllDone(c) ==
     /\ pc[c] = "loaded" /\ smp[c].rem = {}
     /\ Finish(c, "ok") /\ Release(c)
-    /\ UNCHANGED <<disk, buf, drawn, seen, lost, calls, envs, hist>>
+    /\ UNCHANGED <<disk, buf, drawn, seen, lost, calls, envs, hist, k>>
 
 \* availability.go:150  la.getter.GetSamples(samplingCtx, header, idxs)
 GetterEnter(c) ==
     /\ pc[c] = "loaded" /\ smp[c].rem # {}
     /\ pc' = [pc EXCEPT ![c] = "inGetter"]
     /\ UNCHANGED <<disk, buf, session, hgt, ctxDone, smp, woken, got, drawn, seen, okGiven, lost,
-                   calls, envs, hist>>
+                   calls, envs, hist, k>>
 
 \* the (inner) getter answers with outcome o; the availability receives Through(o, viaCascade)
 \* and looks at three things: the length, which samples are non-empty, and whether the error
@@ -223,28 +241,28 @@ GetterReturn(c, o, viaCascade) ==
     /\ pc' = [pc EXCEPT ![c] = "post"]
     /\ Log([a |-> "ret", c |-> c, served |-> {Rank(smp[c].rem, x) : x \in o.served},
             len0 |-> o.len0, kind |-> o.kind, casc |-> viaCascade])
-    /\ UNCHANGED <<disk, buf, session, hgt, ctxDone, smp, woken, drawn, okGiven, lost, calls, envs>>
+    /\ UNCHANGED <<disk, buf, session, hgt, ctxDone, smp, woken, drawn, okGiven, lost, calls, envs, k>>
 
 \* availability.go:151-153  len(smpls) == 0 -> ErrNotAvailable
 ReturnNothing(c) ==
     /\ pc[c] = "post" /\ got[c].len0
     /\ buf' = IF PersistOnEmpty THEN [buf EXCEPT ![hgt[c]] = smp[c]] ELSE buf
     /\ Finish(c, "notAvailable") /\ Release(c)
-    /\ UNCHANGED <<disk, drawn, seen, lost, calls, envs, hist>>
+    /\ UNCHANGED <<disk, drawn, seen, lost, calls, envs, hist, k>>
 
 \* availability.go:155-189
 PersistAndReturn(c) ==
     /\ pc[c] = "post" /\ ~got[c].len0
     /\ buf' = [buf EXCEPT ![hgt[c]] = MkRes(smp[c].avail \cup got[c].served, smp[c].rem \ got[c].served)]
     /\ Finish(c, PersistVerdict(c)) /\ Release(c)
-    /\ UNCHANGED <<disk, drawn, seen, lost, calls, envs, hist>>
+    /\ UNCHANGED <<disk, drawn, seen, lost, calls, envs, hist, k>>
 
 -----------------------------------------------------------------------------
 CancelCtx(c) ==
     /\ Active(c) /\ ~ctxDone[c] /\ envs < MaxEnv
     /\ ctxDone' = [ctxDone EXCEPT ![c] = TRUE] /\ envs' = envs + 1
     /\ Log([a |-> "cancel", c |-> c])
-    /\ UNCHANGED <<disk, buf, session, pc, hgt, smp, woken, got, drawn, seen, okGiven, lost, calls>>
+    /\ UNCHANGED <<disk, buf, session, pc, hgt, smp, woken, got, drawn, seen, okGiven, lost, calls, k>>
 
 DoFlush ==
     /\ disk' = [h \in Heights |-> IF buf[h].set THEN buf[h] ELSE disk[h]]
@@ -254,17 +272,22 @@ Flush ==
     /\ envs < MaxEnv /\ \E h \in Heights : buf[h].set
     /\ DoFlush /\ envs' = envs + 1
     /\ Log([a |-> "flush"])
-    /\ UNCHANGED <<session, pc, hgt, ctxDone, smp, woken, got, drawn, seen, okGiven, lost, calls>>
+    /\ UNCHANGED <<session, pc, hgt, ctxDone, smp, woken, got, drawn, seen, okGiven, lost, calls, k>>
 
 Quiet == \A c \in Callers : ~Active(c)
 
-GracefulRestart ==
+\* Close, then a new instance over the same datastore, configured with sample amount nk.
+\* Verdicts are an instance's: okGiven starts empty again.
+GracefulRestartTo(nk) ==
     /\ envs < MaxEnv /\ Quiet /\ calls > 0 /\ calls < MaxCalls
     /\ DoFlush /\ envs' = envs + 1
-    /\ Log([a |-> "restart"])
-    /\ UNCHANGED <<session, pc, hgt, ctxDone, smp, woken, got, drawn, seen, okGiven, lost, calls>>
+    /\ k' = nk /\ okGiven' = {}
+    /\ Log([a |-> "restart", k |-> IF nk = k THEN 0 ELSE nk])
+    /\ UNCHANGED <<session, pc, hgt, ctxDone, smp, woken, got, drawn, seen, lost, calls>>
 
-Crash ==
+GracefulRestart == \E nk \in Ks \cup {k} : GracefulRestartTo(nk)
+
+CrashTo(nk) ==
     /\ envs < MaxEnv /\ calls > 0 /\ calls < MaxCalls
     /\ buf' = [h \in Heights |-> NoRes]
     /\ session' = [h \in Heights |-> NoCaller]
@@ -276,17 +299,31 @@ Crash ==
     /\ LET forgiven(h) == CrashForgiven /\ ~disk[h].set IN
          /\ drawn' = [h \in Heights |-> IF forgiven(h) THEN [set |-> FALSE, d |-> {}] ELSE drawn[h]]
          /\ seen'  = [h \in Heights |-> IF forgiven(h) THEN {} ELSE seen[h]]
-         /\ okGiven' = {h \in okGiven : ~forgiven(h)}
          \* deliveries that had not reached the underlying datastore are forgotten
          /\ lost'  = [h \in Heights |-> IF forgiven(h) THEN lost[h]
                                         ELSE lost[h] \/ ~(seen[h] \subseteq disk[h].avail)]
+    /\ k' = nk /\ okGiven' = {}
     /\ envs' = envs + 1
-    /\ Log([a |-> "crash"])
+    /\ Log([a |-> "crash", k |-> IF nk = k THEN 0 ELSE nk])
     /\ UNCHANGED <<disk, calls>>
+
+Crash == \E nk \in Ks \cup {k} : CrashTo(nk)
+
+\* Somebody else wrote a record without coordinates under the block's key (null, {}, empty lists,
+\* a damaged value): possible only while nothing of the block is stored or in flight.  The empty
+\* record plays the part of the block's "first draw" in the ghost bookkeeping.
+Plant(h) ==
+    /\ envs < MaxEnv /\ Normal(h) /\ ~Read(h).set /\ ~drawn[h].set
+    /\ \A c \in Callers : hgt[c] # h
+    /\ disk' = [disk EXCEPT ![h] = MkRes({}, {})]
+    /\ drawn' = [drawn EXCEPT ![h] = [set |-> TRUE, d |-> {}]]
+    /\ envs' = envs + 1
+    /\ Log([a |-> "plant", h |-> h])
+    /\ UNCHANGED <<buf, session, pc, hgt, ctxDone, smp, woken, got, seen, okGiven, lost, calls, k>>
 
 CallerStep(c) ==
     \/ EmptyOrOutside(c) \/ StartSession(c) \/ FindHeld(c) \/ Wake(c) \/ WaitAbort(c)
-    \/ LoadOrDraw(c) \/ AllDone(c) \/ GetterEnter(c)
+    \/ LoadOrDraw(c) \/ ReturnInvalid(c) \/ AllDone(c) \/ GetterEnter(c)
     \/ ReturnNothing(c) \/ PersistAndReturn(c)
 
 GetterStep(c) == \E o \in Outcomes(smp[c].rem), m \in CascadeModes : GetterReturn(c, o, m)
@@ -294,7 +331,7 @@ GetterStep(c) == \E o \in Outcomes(smp[c].rem), m \in CascadeModes : GetterRetur
 Next ==
     \/ \E c \in Callers, h \in Heights : Call(c, h)
     \/ \E c \in Callers : CallerStep(c) \/ GetterStep(c) \/ CancelCtx(c)
-    \/ Flush \/ GracefulRestart \/ Crash
+    \/ Flush \/ GracefulRestart \/ Crash \/ \E h \in Heights : Plant(h)
 
 Spec == Init /\ [][Next]_vars
 
@@ -309,14 +346,15 @@ TypeOK ==
     /\ \A h \in Heights : /\ disk[h].avail \cup disk[h].rem \subseteq Coords
                           /\ buf[h].avail \cup buf[h].rem \subseteq Coords
                           /\ session[h] \in Callers \cup {NoCaller}
-    /\ \A c \in Callers : pc[c] \in {"idle", "start", "waiting", "locked", "loaded", "inGetter", "post"}
+    /\ \A c \in Callers : pc[c] \in {"idle", "start", "waiting", "locked", "loaded", "invalid", "inGetter", "post"}
 
 \* The verdict "available" for a non-empty block inside the window is given only when every
 \* coordinate of the draw made when the block was first checked -- min(K, area) distinct
-\* coordinates -- has been delivered by the getter as a non-empty (verified) sample.
+\* coordinates for the sample amount of the instance that gives the verdict -- has been delivered
+\* by the getter as a non-empty (verified) sample.
 AvailableSound ==
     \A h \in okGiven :
-        /\ drawn[h].set /\ Cardinality(drawn[h].d) = Need
+        /\ drawn[h].set /\ Cardinality(drawn[h].d) >= Need
         /\ drawn[h].d \subseteq seen[h]
 
 \* A coordinate of the draw that no getter answer has delivered is still pending in the
